@@ -141,6 +141,11 @@ def build(ctx):
         # Report it and build without the assertion so that the search can still look for a failing input.
         ctx.broken.append("correspondence:layout " + m.group(0))
         ctx.build_driver("drv_c10", ["path.c", "string_view.c", "allocator.c"], flags=["-O2", "-DC10_NO_LAYOUT_ASSERT"])
+    try:
+        ctx.build_driver("drv_c10", ["path.c", "string_view.c", "allocator.c"], flags=["-O0", "-DC10_NO_LAYOUT_ASSERT"],
+                         out=ctx.path("drv_c10_O0"))
+    except vlib.BuildError:
+        pass
     # the > 4 GiB string runs in its own, NOT sanitized binary
     ctx.cc([os.path.join(vlib.HARNESS, "big_c10.c")] + ctx.repo_src("path.c", "string_view.c", "allocator.c"),
            ctx.path("big_c10"), flags=["-O2"], sanitize=False)
@@ -332,11 +337,28 @@ def run_impl(ctx, cases):
                     ctx.notes.append("big-string case skipped: the helper could not map 4 GiB of address space")
             out.append(line)
         return out
+    # second build without optimisation (calls such as memcmp are real calls there, seen by ASan's interceptors): the
+    # P cases must give the same lines; where they do not (a sanitizer report, a different answer) that line is the
+    # implementation's answer for the case
+    if not getattr(ctx, "c10_in_o0", False) and os.path.exists(ctx.path("drv_c10_O0")):
+        ctx.c10_in_o0 = True
+        try:
+            base = run_impl(ctx, cases)
+            pidx = [i for i, c in enumerate(cases) if c.startswith("P ")]
+            ctx.c10_exe = "drv_c10_O0"
+            alt = run_impl(ctx, [cases[i] for i in pidx])
+        finally:
+            ctx.c10_exe = "drv_c10"
+            ctx.c10_in_o0 = False
+        for i, l in zip(pidx, alt):
+            if l != base[i]:
+                base[i] = l if l.startswith("CRASH") else "O0-DIFFERS " + l
+        return base
     res = []
     rest = list(cases)
     restarts = 0
     while rest:
-        rc, out, err = ctx.run_lines([ctx.path("drv_c10")], rest, timeout=1200)
+        rc, out, err = ctx.run_lines([ctx.path(getattr(ctx, "c10_exe", "drv_c10"))], rest, timeout=1200)
         if rc == 0 and len(out) == len(rest):
             res += out
             break
